@@ -239,10 +239,19 @@ func driveC15(args []string) error {
 			z.SetCReg(0, true, ivg.RGBAColor(color.RGBA{uint8(s.C[0]), uint8(s.C[1]), uint8(s.C[2]), uint8(s.C[3])}))
 			z.SetNReg(0, true, s.O.float())
 		}
-		z.SetCSel(uint8((base + 63) % 64))
-		z.SetCReg(0, false, ivg.RGBAColor(ivg.EncodeGradient(uint8(base), uint8(base), uint8(gcase.shape), uint8(gcase.spread), uint8(len(gcase.stops)))))
+		// the gradient value lives in CREG[base-1]; it is written and painted either with CSEL = base-1 and ADJ = 0, or
+		// with CSEL inside the stop block and the adjustment that reaches back to base-1
+		padj := 0
+		if i%3 == 1 {
+			padj = 1 + rng.Intn(6)
+			if padj > len(gcase.stops) {
+				padj = len(gcase.stops)
+			}
+		}
+		z.SetCSel(uint8((base + 63 + padj) % 64))
+		z.SetCReg(uint8(padj), false, ivg.RGBAColor(ivg.EncodeGradient(uint8(base), uint8(base), uint8(gcase.shape), uint8(gcase.spread), uint8(len(gcase.stops)))))
 		full := func() {
-			z.StartPath(0, cfg.vb[0], cfg.vb[1])
+			z.StartPath(uint8(padj), cfg.vb[0], cfg.vb[1])
 			z.AbsLineTo(cfg.vb[2], cfg.vb[1])
 			z.AbsLineTo(cfg.vb[2], cfg.vb[3])
 			z.AbsLineTo(cfg.vb[0], cfg.vb[3])
@@ -251,6 +260,17 @@ func driveC15(args []string) error {
 		// the image handed to Draw is the Renderer's own gradient object, rebuilt by the next StartPath: probe it
 		// right after the Draw, before anything else happens to the Renderer
 		probe := func(rc image.Rectangle, from int) {
+			ndraw := 0
+			for _, c := range rr.Calls[from:] {
+				if c.K == "Draw" {
+					ndraw++
+				}
+			}
+			if ndraw != 1 {
+				// a path painted with a valid gradient (stops premultiplied, offsets strictly increasing within [0,1], default
+				// level of detail) is drawn, once
+				sh.Next().Emit(map[string]interface{}{"ev": "nodraw", "draws": ndraw, "csel": int(z.CSel()), "adj": padj, "base": base, "nstops": len(gcase.stops)})
+			}
 			for _, c := range rr.Calls[from:] {
 				if c.K != "Draw" {
 					continue
@@ -307,6 +327,27 @@ func driveC15(args []string) error {
 			full()
 			probe(nr, n0)
 			stats["retargeted"]++
+		}
+	}
+	// radial gradients whose unit is the pixel, centred on a pixel centre, probed where the distance is an exact integer
+	// (Pythagorean points, also far from the axes): offset exactly on an integer - repeat starts over, reflect turns
+	for spread := 0; spread < 4; spread++ {
+		for _, ctr := range [][2]int{{0, 0}, {3, -2}} {
+			stops := []stopJ{{C: [4]int{255, 0, 0, 255}, O: f32j(0)}, {C: [4]int{0, 100, 0, 100}, O: f32j(0.5)}, {C: [4]int{0, 0, 255, 255}, O: f32j(1)}}
+			var g render.Gradient
+			var st []render.Stop
+			for _, s := range stops {
+				st = append(st, render.Stop{Offset: float64(s.O.float()), RGBA64: color.RGBA64{uint16(s.C[0]) * 0x101, uint16(s.C[1]) * 0x101, uint16(s.C[2]) * 0x101, uint16(s.C[3]) * 0x101}})
+			}
+			aff := render.Aff3{1, 0, -0.5 - float64(ctr[0]), 0, 1, -0.5 - float64(ctr[1])}
+			if g.Init(render.ShapeRadial, render.Spread(spread), aff, st) {
+				for _, t := range [][2]int{{3, 4}, {5, 12}, {8, 15}, {20, 21}, {20, 99}, {99, 20}, {27, 120}, {45, 108}, {28, 195}, {65, 72}, {119, 120}, {696, 697}, {0, 7}, {9, 0}, {1, 1}, {2, 3}} {
+					for _, sg := range [][2]int{{1, 1}, {-1, 1}, {1, -1}, {-1, -1}} {
+						emitPix("Gradient.Init/pythagorean", &g, &g, stops, ctr[0]+sg[0]*t[0], ctr[1]+sg[1]*t[1])
+					}
+				}
+				stats["pythagorean"]++
+			}
 		}
 	}
 	// offsets astronomically far outside [0,1]: the translation is +-2^e (an even integer, exact in float32 and
